@@ -169,7 +169,9 @@ package packfile
 // patchDeltaWriter (streaming applier; coarse). Property C06: no applier
 // reports success after producing partial output: on a nil error exactly
 // targetSz bytes were written to the output (mw is the writer every copy
-// goes to) and the whole delta stream was consumed.
+// goes to) and the whole delta stream was consumed. Property C09: a delta
+// shorter than git's DELTA_SIZE_MIN (4 bytes, patch-delta.c) is a structural
+// error for git index-pack, whatever it says.
 //gvc:func patchDeltaWriter
 //gvc:  props C06 C09
 //gvc:  theory int
@@ -182,6 +184,7 @@ package packfile
 //gvc:  loop 1 decreases remainingTargetSz
 //gvc:  ensures complete: err == nil ==> now(mw).#wlen == w0 + size
 //gvc:  ensures consumed: err == nil ==> deltaBuf.#pos == deltaBuf.#n
+//gvc:  ensures minsize: err == nil ==> deltaBuf.#n - old(deltaBuf.#pos) >= 4
 //gvc:end
 
 // ReaderFromDelta (lazy streaming applier; its goroutine is verified from the
